@@ -11,4 +11,4 @@ for p in "$@"; do
 done
 git -C /repo worktree remove --force $W
 rm -rf /verif/replays
-(cd /verif && PYTHONPATH=/repo /venv/bin/python tools/translate.py /repo coq/gen >/dev/null 2>&1; cd coq && make -k -j8 >/dev/null 2>&1)
+(cd /verif && PYTHONPATH=/repo /venv/bin/python tools/translate.py /repo coq/gen >/dev/null 2>&1; for t in tools/tr_*.py; do PYTHONPATH=/repo /venv/bin/python $t /repo coq/gen >/dev/null 2>&1; done; cd coq && make -k -j16 >/dev/null 2>&1)
